@@ -11,9 +11,18 @@ func vxNm(p string, i int) string {
 // vxIntGraph: IntGraph with case-split out-degrees and symbolic targets in [0,n).
 func vxIntGraph(p string, n, maxDeg int, concretize bool) IntGraph {
 	g := make(IntGraph, n)
+	// CSR layout: every adjacency list is a window of one shared backing array, so each has spare
+	// capacity that runs into the following lists (an in-place append by the code under test lands
+	// in the caller's graph, and Freeze - whole backing array - sees it)
+	buf := make([]int, n*maxDeg+4)
+	for i := range buf {
+		buf[i] = -7
+	}
+	off := 0
 	for i := 0; i < n; i++ {
 		d := vx.Choose(vxNm(p+"deg", i), 0, maxDeg)
-		g[i] = make([]int, d)
+		g[i] = buf[off : off+d]
+		off += d
 		for k := 0; k < d; k++ {
 			t := vx.Int(vxNm(p+"e", i*8+k))
 			vx.Assume(vx.And(t >= 0, t < n))
